@@ -221,7 +221,7 @@ fn byte_tables(t: &mut Tally, r: &mut Rng) {
         let c = char::from_u32(cp).unwrap();
         check_query(t, r, &format!("{}={}", c, c), "utf8-literal");
     }
-    for q in ["", "&", "&&", "=", "==", "a", "a=", "=a", "a&a", "a=&a", "a=1&a=1", "a==1", "%", "a=%", "a=%1", "%1=a", "a=%1g", "+=+", "a=+&a=%20", "a=%2B&a=+", "X-Amz-Signature=x", "X-Amz-Signature", "x-amz-signature=kept", "X-Amz-SignatureX=kept", "X-Amz-Signatur=kept", "X-Amz-Signature=1&X-Amz-Signature=2&a=b", "a=%+5", "%+a=1", "a=%-5", "a=% 5", "a=%+", "a=%5+", "a=%€", "%a€=1", "a=%z😀", "%😀", "a=1&b=%é€", "k%1€=v"] {
+    for q in [" a=1", "a=1 ", "\na=1", "a=1\n", "a=1\r\n", "\u{a0}a=1", "a=1\u{3000}", "\t", " ", "\n", "a=1& &b=2", "a=1&\n", "\u{85}=\u{85}", " = ", "a= 1&b=2 ", "\u{2028}x=y\u{2029}", "", "&", "&&", "=", "==", "a", "a=", "=a", "a&a", "a=&a", "a=1&a=1", "a==1", "%", "a=%", "a=%1", "%1=a", "a=%1g", "+=+", "a=+&a=%20", "a=%2B&a=+", "X-Amz-Signature=x", "X-Amz-Signature", "x-amz-signature=kept", "X-Amz-SignatureX=kept", "X-Amz-Signatur=kept", "X-Amz-Signature=1&X-Amz-Signature=2&a=b", "a=%+5", "%+a=1", "a=%-5", "a=% 5", "a=%+", "a=%5+", "a=%€", "%a€=1", "a=%z😀", "%😀", "a=1&b=%é€", "k%1€=v"] {
         check_query(t, r, q, "structural");
     }
 }
